@@ -268,6 +268,48 @@ def r85(ctx, fx):
         ctx.fail_closed(rid, "fewer than 5 `map`s over case-insensitive terminals found (%d)" % n)
 
 
+# decisions taken on the raw text of the input, each confirmed by reading
+RAW_TEXT_OK = {
+    ("mos_core::parser::c_comment", "starts_with"): (2, "inside a block comment: tells a nested opener from the closer"),
+}
+
+
+def r86(ctx, fx):
+    rid = ctx.rule("R8.6", "what may stand in front of a token is decided by the trivia combinators alone: no parser function looks at the raw text of the input "
+                   "(`input.fragment()`) with starts_with / ends_with / contains / find / trim* / strip_* / chars / bytes / split* to decide how to go on — a hand-written "
+                   "peek has its own idea of what blanks and comments are (one that skips blanks but not comments makes `head /* c */ {` mean something else than "
+                   "`head {`). Copying the text (to_string, to_owned) and length / boundary tests are not decisions of that kind")
+    DECIDE = ("starts_with", "ends_with", "contains", "find", "rfind", "trim", "trim_start", "trim_end", "trim_matches", "trim_start_matches", "trim_end_matches",
+              "strip_prefix", "strip_suffix", "chars", "bytes", "char_indices", "split", "split_whitespace", "splitn", "lines", "get", "as_bytes", "matches")
+    n = 0
+    seen = {}
+    for f in sorted(fx.all_fns("mos_core"), key=lambda f: f.path):
+        if "::tests::" in f.path or not f.path.startswith("mos_core::parser::") or not f.d.get("hir") or f.kind == "closure":
+            continue
+        if "::code_map::" in f.path or "::source::" in f.path:
+            continue
+        n += 1
+        hits = []
+        for x in lib.hwalk(f.hir["body"]):
+            if x.get("k") == "mcall" and x.get("name") in DECIDE and \
+                    any(y.get("k") == "mcall" and y.get("name") == "fragment" for y in lib.hwalk(x["recv"])):
+                hits.append((x["name"], x.get("ln")))
+        if not hits:
+            ctx.inst(rid, f.path, nontrivial=False)
+        for name, ln in hits:
+            kk = (f.path, name)
+            seen[kk] = seen.get(kk, 0) + 1
+            k = "%s|raw-text|%s#%d" % (f.path, name, seen[kk])
+            ok = RAW_TEXT_OK.get(kk)
+            ctx.inst(rid, k, sample={"fn": f.path, "method": name, "line": ln, "tabled": bool(ok and seen[kk] <= ok[0])})
+            if ok and seen[kk] <= ok[0]:
+                continue
+            ctx.finding(rid, k, "%s decides on the raw text of the input (`fragment().%s…`) instead of through the trivia combinators: what it takes for layout is not "
+                        "what the grammar takes for layout, so moving a comment or a line break changes which alternative is parsed" % (f.path.rsplit("::", 1)[-1], name),
+                        "%s:%s" % (f.file, ln))
+    ctx.floor(rid, 60, "parser bodies scanned")
+
+
 def r84(ctx, fx):
     from . import grammar
     rid = ctx.rule("R8.4", "a line comment may be empty: the text parser that follows the `//` tag accepts the empty string (opt / many0 / take_while), "
@@ -295,5 +337,6 @@ def run(ctx):
     r82(ctx, fx, kws)
     r84(ctx, fx)
     r85(ctx, fx)
+    r86(ctx, fx)
     ctx.not_decided("equality of bytes/symbols/diagnostics for concrete trivia placements; nested block comment scanning on arbitrary text; CRLF handling beyond "
                     "the newline trivia rule")
